@@ -226,6 +226,42 @@ check('C10', 'model_checking',
       'of every logged sweep step and every edge by TLC',
       'tlc-data')
 
+check('C07', 'model_checking',
+      'Noise.tla models the channel over exact rationals on a grid (p = '
+      'pn/Den, direction on the simplex incl. faces/vertices), its '
+      'relabelling by a noise deformation, the inverse-CDF sampler, the flip '
+      'marginals and the conditional updates; Noise_Model.tla checks over the '
+      'whole grid that the sampler\'s measure equals the channel under every '
+      'relabelling, p=0/p=1, total probability.  For every grid point x code '
+      'x deformation the real probability tables, fast_choice and generate() '
+      '(scripted generator returning the spec\'s midpoint variates; one '
+      'variate per qubit in order), get_weights (inverted), BP-OSD channel '
+      'probabilities (CSS and non-CSS ordering) and update_probabilities are '
+      'compared with the spec by TLC (C07_Data.tla).',
+      'DESIGN.md 4/C07',
+      'Trusted: TLC; float->integer conversion (tables within 1e-12 of the '
+      'grid; other floats at 2e-6); relabelling table read from the code '
+      '(checked by C08).',
+      'TLA+ rational channel/sampler model checked on the full grid + '
+      'spec->code replay of every variate and grid point judged by TLC',
+      'tlc-data')
+
+check('C18', 'model_checking',
+      'error_probability is recorded for all 4^n errors of small library '
+      'codes on decimal channels (linear and log output, plain and deformed '
+      'noise, r_y > 0, p = 0, p = 1); TLC (C18_Data.tla) recomputes the '
+      'product of per-qubit numerators with Noise!PNum and the sum over all '
+      'errors.  On larger codes a dyadic channel makes -log2 P an exact '
+      'integer that TLC recomputes from per-qubit exponents; every '
+      'likelihood evaluated by the splitting method\'s Metropolis step is '
+      'spied on and judged the same way.',
+      'DESIGN.md 4/C18',
+      'Trusted: TLC; acceptance of a float as an integer numerator within '
+      '1e-9 relative.',
+      'TLA+ product-channel spec (Noise.tla) + exhaustive recorded '
+      'probabilities judged by TLC',
+      'tlc-data')
+
 
 def build():
     checks = []
